@@ -22,6 +22,11 @@ def replay(model, kind, seed=0):
     for p, n in zip(pd, sizes):
         pars[p.name + "_pd"] = 0.2 if p.relative_pd else 10.0
         pars[p.name + "_pd_n"] = n
+    if kind != "Iq" and info.have_Fq:
+        # 2-D kernels of amplitude models: compared through the normalised intensity (the F/F^2 slots of the raw
+        # result are laid out differently in 2-D; an earlier version of this adapter misread them and reported a
+        # difference on the unchanged tree - found by the VERIF_SELFTEST_REPLAYS run)
+        return _replay_2d_intensity(m, kern, pd, sizes)
     mesh = get_mesh(info, pars, dim=kern.dim)
     details, values, magnetic = make_kernel_args(kern, mesh)
     cutoff = 1e-3
@@ -57,6 +62,117 @@ def replay(model, kind, seed=0):
     return bool(bad or badv), {"call": "%s %s kernel, mesh %s, cutoff %g" % (model, kind, sizes[:len(pd)], cutoff),
                                "real_F2": np.array(full[1]).tolist(), "spec_F2": expect.tolist(),
                                "real_Vshell": float(full[3]), "spec_Vshell": float(tot_v / tot_w)}
+
+
+def _replay_2d_intensity(m, kern, pd, sizes):
+    """call_kernel on a size-dispersity mesh of more than 100 points against the volume-weighted average of
+    monodisperse evaluations of the same compiled kernel."""
+    import itertools
+    from sasmodels import weights
+    from sasmodels.direct_model import call_kernel
+    info = m.info
+    pd = [p for p in pd if p.type != "orientation"]
+    if not pd:
+        return False, {"note": "no size dispersity to replay"}
+    base = {p.name: p.default for p in info.parameters.call_parameters}
+    base.update(background=0.0, scale=1.0)
+    for p, ang in zip([q_ for q_ in info.parameters.call_parameters if q_.type == "orientation"], (60.0, 35.0, 20.0)):
+        base[p.name] = ang
+    pars = dict(base)
+    meshes = []
+    for p, n in zip(pd, sizes):
+        pars[p.name + "_pd"], pars[p.name + "_pd_n"] = 0.2, n
+        v, w = weights.get_weights("gaussian", n, 0.2, 3.0, base[p.name], p.limits, True)
+        meshes.append((p.name, v, w))
+    full = np.asarray(call_kernel(kern, pars, cutoff=0.0))
+    num, den = 0.0, 0.0
+    vol_kernel = m.make_kernel([np.array([0.01])])
+    for idx in itertools.product(*[range(len(v)) for _, v, _ in meshes]):
+        point = dict(base)
+        w = 1.0
+        for (name, v, wt), i in zip(meshes, idx):
+            point[name] = v[i]
+            w *= wt[i]
+        mono = np.asarray(call_kernel(kern, point, cutoff=0.0))
+        d1, v1, mag1 = __import__("sasmodels.details", fromlist=["make_kernel_args"]).make_kernel_args(
+            vol_kernel, __import__("sasmodels.direct_model", fromlist=["get_mesh"]).get_mesh(
+                info, {k: x for k, x in point.items() if k not in ("theta", "phi", "psi")}, dim="1d"))
+        vs = vol_kernel.Fq(d1, v1, 0.0, mag1, 1)[3]
+        num = num + w * mono * vs
+        den += w * vs
+    expect = num / den
+    bad = not np.allclose(full, expect, rtol=1e-9)
+    return bool(bad), {"call": "%s 2-D kernel through call_kernel, size mesh %s (%d points)"
+                               % (info.id, sizes[:len(meshes)], int(np.prod([len(v) for _, v, _ in meshes]))),
+                       "real_I": full.tolist(), "spec_I": np.asarray(expect).tolist()}
+
+
+def replay_2d_jitter(model="parallelepiped"):
+    """2-D kernel with angular dispersity (theta and phi jitter meshes reaching past 90 degrees) and one size mesh, more
+    than 100 points: the real kernel against  SUM w |cos dtheta| F2 / SUM w |cos dtheta| V  built from evaluations of
+    the same kernel on one-point meshes (one jitter point each; the |cos| factor and the normalisation cancel there).
+    Jitter values are absolute and centred on zero, as the property states."""
+    import itertools
+    from sasmodels import core
+    from sasmodels.details import make_kernel_args
+    m = core.load_model(model)
+    info = m.info
+    qx = np.array([0.011, -0.023, 0.05, 0.08])
+    qy = np.array([0.017, 0.031, -0.02, 0.004])
+    kern = m.make_kernel([qx, qy])
+    vol_kernel = m.make_kernel([np.array([0.01])])
+    pars = info.parameters.call_parameters
+    npars = info.parameters.npars
+    centre = {p.name: p.default for p in pars}
+    centre.update(scale=1.0, background=0.0, theta=50.0, phi=25.0)
+    if "psi" in centre:
+        centre["psi"] = 15.0
+    sizes_ = [p.name for p in pars if p.polydisperse and p.type == "volume"]
+    size = sizes_[0]
+    dth = np.linspace(-120.0, 120.0, 9)
+    wth = np.exp(-0.5 * (dth / 60.0) ** 2)
+    dph = np.linspace(-30.0, 30.0, 5)
+    wph = np.ones(5)
+    sv = centre[size] * np.linspace(0.8, 1.2, 3)
+    sw = np.array([0.25, 0.5, 0.25])
+    disp = {"theta": (dth, wth), "phi": (dph, wph), size: (sv, sw)}
+    # every further size parameter gets a two-point mesh: with five or more dispersed parameters an undispersed psi is
+    # not among the (at most MAX_PD) loop parameters, and its jitter must then default to zero
+    extra = [(nm, centre[nm] * np.array([0.9, 1.1]), np.array([0.5, 0.5])) for nm in sizes_[1:3]]
+    for nm, v, w in extra:
+        disp[nm] = (v, w)
+
+    def mesh_of(d):
+        out = []
+        for p in pars:
+            if p.name in d:
+                out.append((centre[p.name], d[p.name][0], d[p.name][1]))
+            else:
+                out.append((centre[p.name], [centre[p.name]] if p.type != "orientation" else [0.0], [1.0]))
+        return out
+    cd, values, mag = make_kernel_args(kern, mesh_of(disp))
+    full = np.asarray(kern(cd, values, 0.0, mag))
+    num, den = 0.0, 0.0
+    for i, j, k in itertools.product(range(len(dth)), range(len(dph)), range(len(sv))):
+        for ex_idx in itertools.product(*[range(2) for _ in extra]):
+            one = {"theta": ([dth[i]], [1.0]), "phi": ([dph[j]], [1.0]), size: ([sv[k]], [1.0])}
+            vol = {size: ([sv[k]], [1.0])}
+            w = wth[i] * wph[j] * sw[k] * abs(np.cos(np.radians(dth[i])))
+            for (nm, v, wt), e in zip(extra, ex_idx):
+                one[nm] = ([v[e]], [1.0])
+                vol[nm] = ([v[e]], [1.0])
+                w *= wt[e]
+            c1, v1, m1 = make_kernel_args(kern, mesh_of(one))
+            mono = np.asarray(kern(c1, v1, 0.0, m1))
+            c2, v2, m2 = make_kernel_args(vol_kernel, mesh_of(vol))
+            vs = vol_kernel.Fq(c2, v2, 0.0, m2, 1)[3]
+            num = num + w * mono * vs
+            den += w * vs
+    expect = num / den
+    bad = not np.allclose(full, expect, rtol=1e-9)
+    return bool(bad), {"call": "%s 2-D kernel, view psi = 15 without jitter, theta jitter 9 points in [-120, 120], phi jitter "
+                               "5 points, %s 3 points, %s 2 points each" % (model, size, [nm for nm, _, _ in extra]),
+                       "real_I": full.tolist(), "spec_I": np.asarray(expect).tolist()}
 
 
 def replay_valid_region():
